@@ -256,19 +256,27 @@ Section WithRun.
   Definition count_of (r : R) : R :=
     map_val (fun v => match v with VList l => VNat (length l) | _ => v end) r.
 
-  (** control.rs stabilize: the retry loop. [lx] is stabilize's own lexer, [res] the last result *)
-  Fixpoint stab_loop (n : nat) (a : G) (c : ctx) (lx : clexer) (res : R) : R :=
+  (** control.rs stabilize: the retry loop. [lx] is stabilize's own lexer, [res] the last
+      result, [attempt] the loop counter. It gives up (returning the parser's error) when the
+      lexer has no recover state or when an attempt after the first ends where it started. *)
+  Fixpoint stab_loop (n : nat) (attempt : nat) (a : G) (c : ctx) (lx : clexer) (res : R) : R :=
     match n with
     | 0 => (RFuel, snd res)
     | S n' =>
       match res with
       | (ROk v lx', st) => (ROk v (set_rec lx' None), st)
-      | (RErr _, st) =>
-        match advance_to_recover lx st with
-        | (Ok (true, lx1), st1) => stab_loop n' a c lx1 (runf a lx1 (ctx_unrec c) st1)
-        | (Ok (false, _), st1) => (RErr ERecover, st1)
-        | (Panic, st1) => (RPanic, st1)
-        | (Fuel, st1) => (RFuel, st1)
+      | (RErr e, st) =>
+        match c_rec lx with
+        | None => (RErr e, st)
+        | Some _ =>
+          match advance_to_recover lx st with
+          | (Ok (true, lx1), st1) =>
+            if (0 <? attempt) && pos_eqb (c_cursor_pos lx1) (c_cursor_pos lx) then (RErr e, st1)
+            else stab_loop n' (S attempt) a c lx1 (runf a lx1 (ctx_unrec c) st1)
+          | (Ok (false, _), st1) => (RErr ERecover, st1)
+          | (Panic, st1) => (RPanic, st1)
+          | (Fuel, st1) => (RFuel, st1)
+          end
         end
       | r => r
       end
@@ -278,7 +286,7 @@ Section WithRun.
       [item] = stabilize(recover_default(up_to(parser, sep_or_abort), recover_pat)),
       [probe] = stabilize(maybe(up_to(parser, sep_or_abort))),
       [sepp] = recover_default(discard(one(sep)), recover_pat) *)
-  Fixpoint list_loop (n : nat) (hi : option nat) (ab : list kind) (item probe sepp : G)
+  Fixpoint list_loop (n : nat) (hi : option nat) (ab : list kind) (dflt : val) (item probe sepp : G)
            (c : ctx) (vals : list val) (lx : clexer) (st : store)
            (k : list val -> clexer -> store -> R) : R :=
     match n with
@@ -301,10 +309,15 @@ Section WithRun.
                 match runf sepp lx2 c st1 with
                 | (ROk _ lx3, st3) =>
                   lift (c_start_sublex lx3) st3 (fun lx4 =>
-                  list_loop n' hi ab item probe sepp c vals' lx4 st3 k)
+                  list_loop n' hi ab dflt item probe sepp c vals' lx4 st3 k)
                 | r => r
                 end
             end)
+        (* the item's error was reported but no separator or abort token follows: the malformed
+           item is the last one; consume to the end of the text *)
+        | (RErr ERecover, st1) =>
+          lift (c_advance_to (fuel_of lx0) lx0 (fun _ => false)) st1 (fun '(_, lx1) =>
+          k (vals ++ [dflt]) lx1 st1)
         | r => r
         end in
       match o with
@@ -390,7 +403,7 @@ Fixpoint run (fuel : nat) (g : G) (lx : clexer) (c : ctx) (st : store) {struct f
           let item := GStabilize (GRecoverWith dflt rr (GUpTo item0 soa)) in
           let probe := GStabilize (GMaybe (GUpTo item0 soa)) in
           let sepp := GRecoverWith VUnit rr (GDiscard (GOne sep)) in
-          list_loop rec f hi ab item probe sepp c [] lx st
+          list_loop rec f hi ab dflt item probe sepp c [] lx st
             (fun vals lx' st' =>
                match c_rec lx' with
                | Some _ => (RPanic, st')                 (* debug_assert!(recover_state().is_none()) *)
@@ -585,7 +598,7 @@ Fixpoint run (fuel : nat) (g : G) (lx : clexer) (c : ctx) (st : store) {struct f
     | GRecoverWith dflt r a => recover_with dflt r (fun l c' s => rec a l c' s)
     | GRecover r a | GRecoverDelayed r a => recover_with VNone r (fun l c' s => some_of (rec a l c' s))
     | GRecoverDef r a | GRecoverDefDelayed r a => recover_with VDflt r (fun l c' s => rec a l c' s)
-    | GStabilize a => stab_loop rec f a c lx (rec a lx c st)
+    | GStabilize a => stab_loop rec f 0 a c lx (rec a lx c st)
     (* repeat.rs *)
     | GRepeat lo hi a => run_intersperse rec f lo hi a GEmpty lx c st
     | GRepeatCount lo hi a => count_of (run_intersperse rec f lo hi a GEmpty lx c st)
